@@ -286,9 +286,9 @@ Target(l) == IF l.act \in {"New", "Store", "SetItem", "SetItemFxp", "Resize", "R
              ELSE IF l.act \in {"GetItem", "CtorLike", "NewLike", "Like", "LikeShallow", "CopyShallow", "DeepCopy", "RShiftKeep", "LShiftKeep", "Invert"} THEN l.y
              ELSE IF l.act \in {"BinOp", "Neg"} THEN l.z ELSE NULL
 NonInterference == [][ \A p \in Obj : (p # Target(last') /\ st.objs[p] # NULL /\ st'.objs[p] # st.objs[p])
-                          => (last'.act = "SetItem" /\ \E b \in st.mem : <<last'.x, last'.j>> \in b /\ \E k \in DOMAIN st.objs[p].codes : <<p, k>> \in b) ]_vars
+                          => (last'.act \in {"SetItem", "SetItemFxp"} /\ \E b \in st.mem : <<last'.x, last'.j>> \in b /\ \E k \in DOMAIN st.objs[p].codes : <<p, k>> \in b) ]_vars
 \* C20: chained indexed assignment writes through to the parent
-ViewWriteThrough == [][ (last'.act = "SetItem") =>
+ViewWriteThrough == [][ (last'.act \in {"SetItem", "SetItemFxp"}) =>
                           \A b \in st.mem : <<last'.x, last'.j>> \in b =>
                              \A e \in b : st'.objs[e[1]].codes[e[2]] = st'.objs[last'.x].codes[last'.j] ]_vars
 \* C20: an invalid configuration value changes nothing
